@@ -383,17 +383,28 @@ func (gen *Generator) GenerateMacexpand(args []Sexp) error {
 
 func (gen *Generator) GenerateShortCircuit(or bool, args []Sexp) error {
 	size := len(args)
+	if size == 0 {
+		// (and) is true, (or) is false
+		gen.AddInstruction(PushInstr{&SexpBool{Val: !or}})
+		return nil
+	}
 
 	subgen := gen.NewSubGenerator()
 	subgen.scopes = gen.scopes
 	subgen.Tail = gen.Tail
 	subgen.funcname = gen.funcname
-	subgen.Generate(args[size-1])
+	if err := subgen.Generate(args[size-1]); err != nil {
+		return err
+	}
 	instructions := subgen.instructions
 
 	for i := size - 2; i >= 0; i-- {
 		subgen = gen.NewSubGenerator()
-		subgen.Generate(args[i])
+		subgen.scopes = gen.scopes
+		subgen.funcname = gen.funcname
+		if err := subgen.Generate(args[i]); err != nil {
+			return err
+		}
 		subgen.AddInstruction(DupInstr(0))
 		subgen.AddInstruction(BranchInstr{or, len(instructions) + 2})
 		subgen.AddInstruction(PopInstr(0))
